@@ -192,6 +192,27 @@ func signhistImpl(a map[string]any) (res any) {
 				md = m2
 				return nil
 			}))
+		case "poke":
+			// a NESTED value of the payload is changed in place (first word of a link's command, name
+			// of a layout's first step): no field of a Metablock is re-assigned; an envelope's content
+			// changes through SetPayload only (seeded change c11-signable-cache-aliases-live-object)
+			results = append(results, do(func() error {
+				pay := md.GetPayload()
+				switch pl := pay.(type) {
+				case intoto.Link:
+					if len(pl.Command) > 0 {
+						pl.Command[0] = str(o["s"])
+					}
+				case intoto.Layout:
+					if len(pl.Steps) > 0 {
+						pl.Steps[0].Name = str(o["s"])
+					}
+				}
+				if m, ok := md.(*intoto.Envelope); ok {
+					return m.SetPayload(pay)
+				}
+				return nil
+			}))
 		case "setname":
 			results = append(results, do(func() error {
 				var np any
@@ -397,8 +418,27 @@ func runC04(r *Runner, tier string, rng *Rng) {
 				ops = append(ops, map[string]any{"op": "dumpload"})
 				feat += "dl"
 			case 4:
-				ops = append(ops, map[string]any{"op": "setname", "s": genStr(rng, 30)})
-				feat += "mu"
+				if rng.Bool() {
+					ops = append(ops, map[string]any{"op": "setname", "s": genStr(rng, 30)})
+					feat += "mu"
+				} else {
+					// in-place change of nested content, often right after the keys that signed verified,
+					// and verified again at once: nothing else is canonicalised in between
+					if rng.Chance(60) {
+						for kk := range []int{0, 1} {
+							if signed[kk] {
+								ops = append(ops, map[string]any{"op": "verify", "key": kk})
+							}
+						}
+					}
+					ops = append(ops, map[string]any{"op": "poke", "s": genStr(rng, 30)})
+					for kk := range []int{0, 1} {
+						if signed[kk] {
+							ops = append(ops, map[string]any{"op": "verify", "key": kk})
+						}
+					}
+					feat += "pk"
+				}
 				if len(signed) > 0 {
 					mutated = true
 				}
